@@ -23,10 +23,13 @@ import BioCantor.Proofs.GffAttrs
 import BioCantor.Proofs.GffIds
 import BioCantor.Proofs.GffLine
 import BioCantor.Proofs.GffDecode
+import BioCantor.Proofs.GffFix
+import BioCantor.Proofs.GffText
 namespace BioCantor.Props.C11
 open BioCantor BioCantor.Model.Gff BioCantor.Proofs.GffEscape BioCantor.Proofs.GffRows BioCantor.Proofs.GffAttrs
-open BioCantor.Proofs.GffIds BioCantor.Proofs.GffLine BioCantor.Proofs.GffDecode
-open BioCantor.Spec.Gff (Str Quals SCds STx SGene SFeat SFc SChild SPar SColl percentDecode percentsOk wellEscaped
+open BioCantor.Proofs.GffIds BioCantor.Proofs.GffLine BioCantor.Proofs.GffDecode BioCantor.Proofs.GffFull
+open BioCantor.Proofs.GffFix BioCantor.Proofs.GffText BioCantor.Proofs.GffAttrEq BioCantor.Proofs.GffQuals
+open BioCantor.Spec.Gff (Str Quals SCds STx SGene SFeat SFc SChild SPar SColl GColl percentDecode percentsOk wellEscaped
   structural structuralValue splitOnChar parseAttrs parseLine uuidShaped)
 
 /-! ## T1 — escaping decodes back, for EVERY string, in both comma modes -/
@@ -165,7 +168,7 @@ theorem T4_ids_distinct (cx : Ctx) (c : SColl) (hnd : (Spec.Gff.allGuids c).Nodu
 
 /-! ## T5 — decoding -/
 
-/-- T5_structure_partial: reading the SORTED output back by Parent — the rows of type exon whose Parent is a
+/-- T5 (rows): reading the SORTED output back by Parent — the rows of type exon whose Parent is a
     transcript's ID, in file order and shifted back by the chunk offset, are exactly that transcript's exon blocks;
     the CDS rows naming it are exactly its CDS blocks, each with `to_phase` of the frame the export pairs with it
     (= the stored frame in chromosome mode).  For every well-formed collection with pairwise distinct UUID-shaped
@@ -177,7 +180,7 @@ theorem T4_ids_distinct (cx : Ctx) (c : SColl) (hnd : (Spec.Gff.allGuids c).Nodu
     Spec/Gff.lean (needs: the model's imperative `mergeQuals`/`addToSet` = that union), (iii) composition with the
     per-line theorem below.  (i)–(iii) rest on the correspondence run, where `Spec.Gff.checkLines` evaluates exactly
     this equation on the real writer's output. -/
-theorem T5_structure_partial (cx : Ctx) (c : SColl) (hwf : collWF cx.off c = true)
+theorem T5_structure_rows (cx : Ctx) (c : SColl) (hwf : collWF cx.off c = true)
     (hnd : (Spec.Gff.allGuids c).Nodup) (hu : ∀ g ∈ Spec.Gff.allGuids c, uuidShaped g = true)
     (g : SGene) (t : STx) (hg : SChild.gene g ∈ c.children) (ht : t ∈ g.txs) :
     ((sortedRows cx c).filter (isChildOf .exon t.guid)).map (rowBlk cx.off) = t.exons ∧
@@ -191,7 +194,7 @@ theorem T5_structure_partial (cx : Ctx) (c : SColl) (hwf : collWF cx.off c = tru
   · intro k hk
     rw [h.2]; exact cdsRowsOf_blocks _ hk htw
 
-/-- T5_line_partial: the Spec's line reader applied to a rendered row returns that row's nine columns — seqid,
+/-- T5 (line): the Spec's line reader applied to a rendered row returns that row's nine columns — seqid,
     source, type, the SAME start and end numbers, strand, phase — and the decoded (tag, values) pairs of its
     attribute column.
 
@@ -199,7 +202,7 @@ theorem T5_structure_partial (cx : Ctx) (c : SColl) (hwf : collWF cx.off c = tru
     evaluates exactly this equation on the real writer's output for every generated collection):
       `gffDecode off ((toGffLines c …).map parseLine) = expected c`   ( = normalise (structure c) ); see
     T5_structure_partial for what is missing. -/
-theorem T5_line_roundtrip_partial (r : Row) (line : Str) (h : rowStr r = .ok line)
+theorem T5_line_roundtrip (r : Row) (line : Str) (h : rowStr r = .ok line)
     (hseq : noSep r.seqid) (hne : r.seqid ≠ []) (h1 : 1 ≤ r.start) (h2 : r.start ≤ r.stop)
     (hkeys : ∀ kv ∈ r.attrs.quals, kv.1 ≠ []) :
     ∃ tail, qualPairs r.attrs.raiseOnReserved (sortQuals r.attrs.quals) = .ok tail ∧
@@ -217,10 +220,10 @@ def exTx1 : STx :=
 def exTx2 : STx :=
   { guid := "00000000-0000-0000-0000-000000000004".toList, strand := .minus, exons := [(14, 18)], cds := none,
     tid := none, sym := none, ttype := none, pid := none, product := none, quals := [] }
-def exColl : SColl :=
-  { seqName := some ['c', 'h', 'r'], par := .chunk 10 90,
-    children := [.gene { guid := "00000000-0000-0000-0000-000000000001".toList, gid := some ['g'], sym := some ['G'],
-                         gtype := none, locus := none, quals := [], txs := [exTx1, exTx2] }] }
+def exGene : SGene :=
+  { guid := "00000000-0000-0000-0000-000000000001".toList, gid := some ['g'], sym := some ['G'],
+    gtype := none, locus := none, quals := [], txs := [exTx1, exTx2] }
+def exColl : SColl := { seqName := some ['c', 'h', 'r'], par := .chunk 10 90, children := [.gene exGene] }
 
 example : collWF 10 exColl = true := by decide
 example : uuidShaped exTx1.guid = true := by decide
@@ -231,5 +234,140 @@ def exRow : Row :=
 example : (∃ line, rowStr exRow = .ok line) ∧ noSep exRow.seqid ∧ exRow.seqid ≠ [] ∧ 1 ≤ exRow.start ∧
     exRow.start ≤ exRow.stop ∧ (∀ kv ∈ exRow.attrs.quals, kv.1 ≠ []) :=
   ⟨rowStr_noraise _ rfl, by decide, by decide, by decide, by decide, by decide⟩
+
+/-! ## T0 — the constants of the model are the ones regenerated from the source -/
+
+def enumVal (t : List (List Char × List Char)) (name : String) : Option Str := t.lookup name.toList
+
+/-- T0: every string constant the model hard-codes equals the value regenerated from io/gff3/constants.py /
+    gene/biotype.py on this run (a changed enum value, key name, source tag, header or placeholder breaks this). -/
+theorem T0_constants_tie :
+    gffSource = Gen.gff3_GFF_SOURCE ∧ nullColumn = Gen.gff3_NULL_COLUMN ∧ [','] = Gen.gff3_ATTRIBUTE_SEPARATOR ∧
+    bioCantorReserved = Gen.gff3_BioCantorGFF3ReservedQualifiers.map (·.2) ∧
+    gff3Reserved = (Gen.gff3_BioCantorGFF3ReservedQualifiers ++ Gen.gff3__GFF3ReservedQualifiers).map (·.2) ∧
+    [enumVal Gen.gff3_BioCantorFeatureTypes "GENE", enumVal Gen.gff3_BioCantorFeatureTypes "TRANSCRIPT",
+     enumVal Gen.gff3_BioCantorFeatureTypes "EXON", enumVal Gen.gff3_BioCantorFeatureTypes "CDS",
+     enumVal Gen.gff3_BioCantorFeatureTypes "FEATURE_COLLECTION", enumVal Gen.gff3_BioCantorFeatureTypes "FEATURE_INTERVAL",
+     enumVal Gen.gff3_BioCantorFeatureTypes "FEATURE_INTERVAL_REGION"] =
+      [RowType.gene, .transcript, .exon, .cds, .featureCollection, .featureInterval, .subregion].map (some ·.value) ∧
+    [enumVal Gen.gff3_BioCantorQualifiers "GENE_ID", enumVal Gen.gff3_BioCantorQualifiers "GENE_NAME",
+     enumVal Gen.gff3_BioCantorQualifiers "GENE_TYPE", enumVal Gen.gff3_BioCantorQualifiers "LOCUS_TAG",
+     enumVal Gen.gff3_BioCantorQualifiers "TRANSCRIPT_ID", enumVal Gen.gff3_BioCantorQualifiers "TRANSCRIPT_NAME",
+     enumVal Gen.gff3_BioCantorQualifiers "TRANSCRIPT_TYPE", enumVal Gen.gff3_BioCantorQualifiers "PROTEIN_ID",
+     enumVal Gen.gff3_BioCantorQualifiers "PRODUCT", enumVal Gen.gff3_BioCantorQualifiers "FEATURE_ID",
+     enumVal Gen.gff3_BioCantorQualifiers "FEATURE_SYMBOL", enumVal Gen.gff3_BioCantorQualifiers "FEATURE_TYPE",
+     enumVal Gen.gff3_BioCantorQualifiers "FEATURE_COLLECTION_ID",
+     enumVal Gen.gff3_BioCantorQualifiers "FEATURE_COLLECTION_NAME",
+     enumVal Gen.gff3_BioCantorQualifiers "FEATURE_COLLETION_TYPE"] =
+      [kGeneId, kGeneName, kGeneBiotype, kLocusTag, kTxId, kTxName, kTxBiotype, kProteinId, kProduct, kFeatureId,
+       kFeatureName, kFeatureType, kFcId, kFcName, kFcType].map some ∧
+    unspecified = Gen.biotype_UNKNOWN_BIOTYPE ∧
+    enumVal Gen.gff3_GFF3Headers "HEADER" = some headerLine ∧
+    enumVal Gen.gff3_GFF3Headers "FASTA_HEADER" = some fastaHeaderLine ∧
+    enumVal Gen.gff3_GFF3Headers "SEQUENCE_HEADER" =
+      some (regionPrefix ++ "{symbol}".toList ++ [' ', '1', ' '] ++ "{length}".toList) := by
+  decide
+
+/-! ## T5 — attributes: read-back and merge -/
+
+/-- T5a (attributes read back): for every qualifier dictionary that renders, the qualifier part of the column —
+    split, percent-decoded and canonicalised by the Spec's reader — is `expectAttrs` of that dictionary: keys folded,
+    reserved tags and empty value sets absent, `""` read as `nan`, commas separating values. -/
+theorem T5_attrs_read_back (raise : Bool) (Q : Quals) (tail : List (Str × Str))
+    (h : qualPairs raise (sortQuals Q) = .ok tail) :
+    Spec.Gff.canonAttrs (tail.map decodePair) = Spec.Gff.expectAttrs Q :=
+  tail_reads_as raise Q tail h
+
+/-- T5b (merge = union): what a gene / transcript / CDS row must read back as can be computed from the model's
+    imperative export dictionaries (`addToSet`, `mergeQuals`) or from the Spec's declarative unions — the same. -/
+theorem T5_merge_is_union (g : SGene) (t : STx) :
+    Spec.Gff.expectAttrs (geneExportQuals g) = Spec.Gff.expectAttrs (Spec.Gff.geneQuals g) ∧
+    Spec.Gff.expectAttrs (txExportQuals t (geneExportQuals g)) = Spec.Gff.expectAttrs (Spec.Gff.txQuals g t) ∧
+    Spec.Gff.expectAttrs (cdsExportQuals t (txExportQuals t (geneExportQuals g))) =
+      Spec.Gff.expectAttrs (Spec.Gff.cdsQuals g t) :=
+  ⟨expectAttrs_congr (gene_quals_rel g), expectAttrs_congr (tx_quals_rel g t), expectAttrs_congr (cds_quals_rel g t)⟩
+
+/-! ## T5 — the complete equation -/
+
+/-- T5 (complete): if `toGffLines c` succeeds, every line parses by the Spec's reader, and decoding the parsed
+    lines with the reference decoder gives
+      * the expected GENES (`normalise (structure c)`: file order, transcripts by start, exon / CDS blocks, frames,
+        strands, IDs, Names, and the canonical attribute multimap of EVERY row) for every well-formed collection
+        with pairwise distinct UUID-shaped GUIDs — feature collections may be present;
+      * exactly `expected c` when the collection holds genes only.
+    Hypotheses: `collWF` at the export's offset; non-empty qualifier keys; a sequence name without tab / LF / CR;
+    `FramesKept` (automatic in chromosome mode, `framesKept_chrom`; in chunk-relative mode it says that no CDS has
+    a programmed frameshift, which that mode documents as lost). -/
+theorem T5_decode_complete (c : SColl) (chromRel raise : Bool) (lines : List Str) (cx : Ctx)
+    (h : toGffLines c chromRel raise = .ok lines) (hne : c.children ≠ []) (hcx : mkCtx c chromRel raise = .ok cx)
+    (H : Hyp cx c) (hF : FramesKept cx c) (hk : SrcKeysOk c) (hseq : noSep cx.seqid) :
+    ∃ prows, lines.mapM parseLine = some prows ∧
+      (Spec.Gff.gffDecode cx.off prows).genes = (Spec.Gff.expected c).genes ∧
+      (genesOnly c = true → Spec.Gff.gffDecode cx.off prows = Spec.Gff.expected c) :=
+  export_decodes h hne hcx H hF hk hseq
+
+/-- T5c (second round): qualifier inheritance — every transcript additionally carrying its gene's qualifiers, which
+    is what a reader of the file hands back — does not change what the file must decode to; so by T5 the export of
+    the re-read collection decodes to the same structure as the first export (a fixed point of decode ∘ export). -/
+theorem T5_inheritance_fixed_point (c : SColl) : Spec.Gff.expected (inheritQuals c) = Spec.Gff.expected c :=
+  expected_inherit c
+
+/-! ## T6 — the file around the rows: header, `##sequence-region`, `##FASTA` -/
+
+/-- T6a: shape of what `collection_to_gff3` prints (see `gff3Lines_shape`): version header; one
+    `##sequence-region <name> 1 <len>` per collection; each collection's sorted rows as one block; `##FASTA` and one
+    record per collection named like column 1 — all in the same order (by sequence name when `ordered`). -/
+theorem T6_file_shape (cs : List GColl) (addSeq ordered chromRel raise : Bool) (lines : List Str)
+    (h : gff3Lines cs addSeq ordered chromRel raise = .ok lines) :
+    let order := if ordered then sortByName cs else cs
+    ∃ (regions : List Str) (blocks : List (List Str)),
+      lines = headerLine :: regions ++ blocks.flatten ++
+        (if addSeq then fastaHeaderLine :: order.flatMap (fun g => match g.seq with
+            | some s => fastaRecord (gNameM g) s | none => []) else []) ∧
+      blocks.length = order.length ∧
+      (∀ p ∈ order.zip blocks, toGffLines p.1.coll chromRel raise = .ok p.2) ∧
+      (addSeq = false → regions = []) ∧
+      (addSeq = true → regions.length = order.length ∧
+        (∀ g ∈ order, ∃ s, g.seq = some s) ∧
+        ∀ p ∈ order.zip regions, ∃ s, p.1.seq = some s ∧ p.2 = regionLine (gNameM p.1) s.length) ∧
+      (chromRel = true → addSeq = true → ∀ g ∈ cs, gIsChunk g = false) :=
+  gff3Lines_shape cs addSeq ordered chromRel raise lines h
+
+/-- T6b: a FASTA record is `>` + the collection's sequence name, then non-empty lines of at most 60 characters whose
+    concatenation is the sequence. -/
+theorem T6_fasta_record (name seq : Str) :
+    ∃ body, fastaRecord name seq = ('>' :: name) :: body ∧ body.flatten = seq ∧ ∀ l ∈ body, l ≠ [] ∧ l.length ≤ 60 :=
+  fastaRecord_spec name seq
+
+/-- T6c: with `ordered=True` the collections are written in code-point order of their sequence names. -/
+theorem T6_ordered (cs : List GColl) :
+    (sortByName cs).Perm cs ∧
+    (sortByName cs).Pairwise (fun a b => Spec.Gff.strLe (gNameM a) (gNameM b) = true) :=
+  sortByName_spec cs
+
+/-! ### non-vacuity for T5 complete / T6: the example gene collection in chromosome mode -/
+
+def exCollChrom : SColl := { exColl with par := .chrom }
+def exCx : Ctx := ⟨['c', 'h', 'r'], 0, false, false⟩
+
+example : mkCtx exCollChrom true false = .ok exCx := rfl
+example : Hyp exCx exCollChrom := ⟨by decide, by decide, by decide⟩
+example : FramesKept exCx exCollChrom := framesKept_chrom _ _ rfl
+example : genesOnly exCollChrom = true ∧ exCollChrom.children ≠ [] ∧ noSep exCx.seqid := by decide
+example : SrcKeysOk exCollChrom := by
+  intro x hx
+  have hx' : x = SChild.gene exGene := List.mem_singleton.mp hx
+  subst hx'
+  refine ⟨fun kv h => absurd h (List.not_mem_nil), ?_⟩
+  intro t ht
+  have ht' : t = exTx1 ∨ t = exTx2 := by
+    have : t ∈ [exTx1, exTx2] := ht
+    simpa using this
+  rcases ht' with rfl | rfl
+  · intro kv h
+    have : kv = ((['k', ' '] : Str), ([['v', ';']] : List Str)) := List.mem_singleton.mp h
+    rw [this]; decide
+  · exact fun kv h => absurd h (List.not_mem_nil)
+example : ∃ lines, toGffLines exCollChrom true false = .ok lines := toGffLines_noraise _ _ exCx rfl
 
 end BioCantor.Props.C11
